@@ -797,7 +797,19 @@ func (o *Object) ExportType() reflect.Type {
 	return o.self.exportType()
 }
 
-func (o *Object) hash(*maphash.Hash) uint64 {
+// hostIdentity is implemented by the kinds of objects whose equal() makes two distinct wrappers the same value for
+// === and SameValue (two wrappers of one Go value, the template objects of one site): as keys of a Map or a Set they
+// must then hash by the identity of what they wrap, not by the address of the wrapper.
+type hostIdentity interface {
+	hashIdentity(hasher *maphash.Hash) (uint64, bool)
+}
+
+func (o *Object) hash(hasher *maphash.Hash) uint64 {
+	if w, ok := o.self.(hostIdentity); ok {
+		if h, ok := w.hashIdentity(hasher); ok {
+			return h
+		}
+	}
 	return uint64(uintptr(unsafe.Pointer(o)))
 }
 
